@@ -125,6 +125,8 @@ def inline(X, fn, mapping=None, ctx=(), chain=(), depth=0, stop=()):
         raise X.errors[fn]
     for ev in X.events.get(fn, []):
         ectx = ctx + subst_ctx(ev.ctx, mapping)
+        if not og.ctx_feasible(ectx):
+            continue   # dead for this call: a branch on a literal None / Some(..) argument, or contradictory conditions
         if ev.kind == "emit":
             sp = subst_parts(ev.parts, mapping)
             if og.CANON and mapping:
